@@ -31,6 +31,13 @@ Proof.
 Qed.
 Print Assumptions C16_pairing_total.
 
+(* the answer is the same when source and reference are swapped (same tolerances on both sides: Mesh.equals uses the minimum
+   of both meshes' tolerances, which is symmetric) *)
+Theorem C16_mesh_equal_sym : forall rel abs A B,
+  NoDup (cell_types A) -> NoDup (cell_types B) -> mesh_equal rel abs A B = mesh_equal rel abs B A.
+Proof. exact mesh_equal_sym. Qed.
+Print Assumptions C16_mesh_equal_sym.
+
 (* compatibility relates only pixel~quad and voxel~hexahedron, symmetrically *)
 Theorem C16_compat_table : forall a b,
   compat a b = true <-> a = b \/ (a = 8 /\ b = 9) \/ (a = 9 /\ b = 8) \/ (a = 11 /\ b = 12) \/ (a = 12 /\ b = 11).
